@@ -242,13 +242,15 @@ def host_main(case_path, out_path):
                     note_pid(ws[-1])
                 else:
                     ws.append({'placeholder': True, 'kind': o['kind'], 'owned': False, 'pids': []})
-            elif name in ('run', 'runp'):
+            elif name in ('run', 'runp', 'runl'):
                 nrun[0] += 1
                 base = nrun[0] * 100
                 n = 2 * max(1, len(list(pool.workers))) + 2
                 inputs = [base + i for i in range(n)]
                 if name == 'runp':
                     inputs.insert(2, -1)
+                if name == 'runl':
+                    inputs.insert(2, -2)          # the target leaves a non-daemon thread behind and fails: the process lingers
                 expect = sorted(x * x for x in inputs if x >= 0)
                 dead_before = set(id(w['obj']) for w in ws if 'obj' in w and not os_alive(w))
                 live_restarted = set(id(w['obj']) for w in ws if 'obj' in w and id(w['obj']) in restarted and os_alive(w)
@@ -287,6 +289,21 @@ def host_main(case_path, out_path):
                 restarted.clear()
                 if oc == 'raised':
                     st['exc'] = type(r).__name__
+            elif name == 'runabort':
+                # run() abandoned by an exception raised by the worker_callback at the first 'enqueued' event: one input is in
+                # flight, its answer arrives later (possibly during the next run)
+                nrun[0] += 1
+                base = nrun[0] * 100
+                inputs = [base + i for i in range(2 * max(1, len(list(pool.workers))) + 2)]
+
+                def cb_abort(wk, ev, *a):
+                    if ev == 'enqueued':
+                        raise RuntimeError('the caller abandons this run')
+                oc, r = bounded(lambda: pool.run(iter(inputs), worker_callback=cb_abort))
+                st['outcome'] = oc
+                if oc == 'raised':
+                    st['exc'] = type(r).__name__
+                restarted.clear()
             elif name == 'runint':
                 # run() left through a BaseException raised while it executes: the worker_callback raises KeyboardInterrupt
                 # when the first result arrives (inputs are still pending then)
@@ -486,6 +503,17 @@ CURATED = [
     ('none', ['add:process', 'add:thread', 'stick:1', 'restartg', 'restart', 'close']),
     ('none', ['add:process', 'add:process', 'stick:1', 'restartg', 'exc']),
     ('none', ['add:process', 'add:process', 'restartg', 'run', 'close']),
+    # a worker whose target failed during run() (the pool has recorded its end) but whose PROCESS lingers
+    ('none', ['add:process', 'add:thread', 'runl', 'close']),
+    ('none', ['add:process', 'add:process', 'runl', 'exc']),
+    ('none', ['add:process', 'runl', 'run', 'terminate']),
+    ('none', ['add:process', 'runl', 'restart', 'run', 'close']),
+    ('false', ['add:process', 'runl', 'close']),
+    # runs abandoned by the worker_callback with an input in flight, then a run that must only return its own answers
+    ('none', ['add:process', 'runabort', 'runabort', 'run', 'close']),
+    ('none', ['add:thread', 'runabort', 'runabort', 'run', 'run', 'close']),
+    ('none', ['add:process', 'runabort', 'run', 'runabort', 'runabort', 'run', 'close']),
+    ('none', ['add:process', 'add:thread', 'runabort', 'runabort', 'runabort', 'run', 'exc']),
 ]
 CURATED_REMOTE = [
     ('none', ['add:remote', 'add:process', 'run', 'kill:1', 'run', 'close']),
@@ -498,6 +526,8 @@ CURATED_REMOTE = [
     ('none', ['add:remote', 'add:remote', 'stick:1', 'stick:2', 'termint', 'exc']),
     ('none', ['add:remote', 'stick:1', 'restartg', 'close']),
     ('none', ['add:remote', 'add:process', 'runint', 'exc']),
+    ('none', ['add:remote', 'runl', 'close']),
+    ('none', ['add:remote', 'runabort', 'runabort', 'run', 'close']),
 ]
 
 
@@ -505,7 +535,7 @@ def _interesting(ops):
     base = [o.partition(':')[0] for o in ops]
     if base[0] not in ('add', 'attach'):
         return False
-    if not any(b in ('run', 'runp', 'runint', 'restart', 'restartg', 'close', 'terminate', 'exc', 'closeint', 'termint') for b in base):
+    if not any(b in ('run', 'runp', 'runl', 'runabort', 'runint', 'restart', 'restartg', 'close', 'terminate', 'exc', 'closeint', 'termint') for b in base):
         return False
     # nothing but closing calls after the first close is only interesting once or twice
     return True
@@ -625,9 +655,11 @@ def run(prop, tier, replay=None):
         'whatif_earlyflag': dict(cfg=_mc_cfg(MaxOps='4', EarlyFlag='TRUE'), workers=2, expect='invariant:Inv_AllDead', label='what-if: _close sets _pool_closed before the clean-up (must be rejected)'),
         'whatif_stickyguard': dict(cfg=_mc_cfg(MaxOps='4', StickyGuard='TRUE'), workers=2, expect='invariant:Inv_AllDead', label='what-if: a BaseException inside run leaves _map_guard set (must be rejected)'),
         'whatif_earlyunreg': dict(cfg=_mc_cfg(MaxOps='4', EarlyUnreg='TRUE'), workers=2, expect='invariant:', label='what-if: restart_workers drops the registry entry before restarting (must be rejected)'),
+        'whatif_closedonlywait': dict(cfg=_mc_cfg(MaxOps='4', ClosedOnlyWait='TRUE'), workers=2, expect='invariant:Inv_AllDead', label='what-if: _close only waits for a worker whose end a run has recorded (must be rejected)'),
+        'whatif_staleoverwrite': dict(cfg=_mc_cfg(MaxOps='4', StaleOverwrite='TRUE'), workers=2, expect='invariant:Inv_RunIsolated', label='what-if: the in-flight count of abandoned runs is overwritten, not accumulated (must be rejected)'),
         'whatif_norekey': dict(cfg=_mc_cfg(MaxOps='4', NoRekey='TRUE'), workers=2, expect='invariant:Inv_RunIsolated', label='what-if: restart_workers does not re-key (must be rejected)'),
     }
-    for w in ('W_ClosedWithStuck', 'W_RestartAfterDeath', 'W_DupRaised', 'W_RunAfterPoison', 'W_ForceFalseSurvivor', 'W_InterruptedStuck', 'W_RunInterrupted', 'W_GentleRestartFails'):
+    for w in ('W_ClosedWithStuck', 'W_RestartAfterDeath', 'W_DupRaised', 'W_RunAfterPoison', 'W_ForceFalseSurvivor', 'W_InterruptedStuck', 'W_RunInterrupted', 'W_GentleRestartFails', 'W_LingerAfterFailure', 'W_TwoAbandonedRuns'):
         jobs[w] = dict(cfg=_mc_cfg(MaxOps='5') + 'INVARIANT ' + w + '\n', workers=2, expect='invariant:' + w, label='witness ' + w)
     jobs['free4'] = dict(cfg=_dump_cfg(MaxOps='4', MaxW='2', Fix='FixNone', Kinds=kinds, Plans='FreeNone'), workers=1, label='path dump: every history of 4 calls, <= 2 workers (code as it is)')
     jobs['sim6'] = dict(cfg=_dump_cfg(MaxOps='6', MaxW='3', Fix='FixNone', Kinds=kinds, Plans='FreeNone'), workers=1, label='simulation: histories of 6 calls, <= 3 workers',
